@@ -191,6 +191,23 @@ fn history_block(b: u64) -> BlockReport {
             judge(1_000_000, base_s * 1_000_000 + 250_000, &mut rep);
             judge(1000, (base_s - 1) * 1000 + 999, &mut rep);
         }
+        // ... and a stored record is parsed on this thread (a reader that converts its own time stamps while it reads):
+        // the instants on and next to the second boundaries around the record's storage time follow
+        for (s, us) in [(base_s - 1, 900_000u32), (base_s, 0), (base_s, 999_999), (base_s - 1, 1_000_000)] {
+            let m = Message::new(conf.clone(), None);
+            let bytes = guard(|| m.add_storage_header(Some(DltTimeStamp { seconds: s as u32, microseconds: us })).as_bytes());
+            if let Ok(bytes) = bytes {
+                std::hint::black_box(guard(|| dlt_core::parse::dlt_message(&bytes, None, true).is_ok()).ok());
+            }
+            for d in [0u64, 1, 2] {
+                judge(1_000_000, base_s * 1_000_000 + d, &mut rep);
+                judge(1_000_000, base_s * 1_000_000 - 1 - d, &mut rep);
+                judge(1000, base_s * 1000 + d, &mut rep);
+                judge(1000, base_s * 1000 - 1 - d, &mut rep);
+            }
+            judge(1_000_000, (base_s + 1) * 1_000_000, &mut rep);
+            judge(1000, (base_s + 1) * 1000, &mut rep);
+        }
         let m = Message::new(conf, None);
         std::hint::black_box(guard(|| m.add_storage_header(None).as_bytes().len()).ok());
         judge(1000, base_s * 1000 + 251, &mut rep);
@@ -319,6 +336,27 @@ fn teardown_block(b: u64) -> BlockReport {
             }
         });
         let _ = h.join();
+        // hand-over: a thread that has never converted anything starts right after another thread ticked into second
+        // s + 1; its first questions are about that second and the one before
+        let fresh = std::thread::spawn(move || {
+            let mut out = vec![];
+            for c in [Case { unit: 1000, x: (s + 1) * 1000 + 300 }, Case { unit: 1_000_000, x: (s + 1) * 1_000_000 + 300_000 }, Case { unit: 1000, x: s * 1000 + 999 }, Case { unit: 1_000_000, x: s * 1_000_000 + 1 }] {
+                out.push((c.clone(), check(&c)));
+            }
+            out
+        });
+        for (c, r) in fresh.join().unwrap_or_default() {
+            rep.evaluations += 1;
+            match r {
+                Ok(_) => rep.nontrivial += 1,
+                Err(mut v) => {
+                    if rep.violation.is_none() {
+                        v.msg = format!("{} (first conversions of a fresh thread, right after another thread converted instants of the seconds {} and {})", v.msg, s, s + 1);
+                        rep.violation = Some((json!({"teardown_block": b, "failing_call": c}), v));
+                    }
+                }
+            }
+        }
         for (c, verdict) in rx.try_iter() {
             rep.evaluations += 1;
             match verdict {
@@ -349,7 +387,7 @@ pub fn run(run: &Run) {
     run.rule(
         "cases = (constructor, u64 input with input/unit-per-second < 2^32): enumerated boundaries (0, unit multiples +-1, powers of two +-1, \
          largest admissible values); the first and last 8 sub-second values of 1.2 M whole-second counts; 65536 inputs on either side of every \
-         multiple (x1..x130) of every power of two 2^24..2^52; every input below 2^26 (thorough: from_ms below 2^37, from_us below 2^36); call histories on one thread (descending walks, zig-zag around second boundaries, both constructors alternately, two or three unrelated clocks interleaved, message stamping in between); conversions made from a thread-local destructor while a thread winds down (three registration orders); then uniform / log-uniform / (seconds, remainder) random inputs; non-trivial = sub-second part != 0 and \
+         multiple (x1..x130) of every power of two 2^24..2^52; every input below 2^26 (thorough: from_ms below 2^37, from_us below 2^36); call histories on one thread (descending walks, zig-zag around second boundaries, both constructors alternately, two or three unrelated clocks interleaved, message stamping in between); conversions made from a thread-local destructor while a thread winds down (three registration orders) and the first conversions of a fresh thread right after another thread's; stored records parsed between the calls; then uniform / log-uniform / (seconds, remainder) random inputs; non-trivial = sub-second part != 0 and \
          whole seconds != 0; distinct by (constructor, input)",
     );
     run.assume("oracle: seconds*10^6 + microseconds == input expressed in microseconds, computed in u128; overflow checks are on in the build");
